@@ -441,6 +441,50 @@ func init() {
 					w.finish(true)
 				})
 			}
+			// 4g. a slow path (round trip 0.8 s, below the initial RTO so that samples are taken: the RTO settles well above its minimum) and then an outage lasting several
+			//     T3-rtx expiries: the expiries back the TIMER off, the RTO itself moves only with a new round-trip sample
+			if next() {
+				label := fmt.Sprintf("api-slowpath-t3-il%v#%d", il, k)
+				run(label, func() {
+					w := vfNewWorld(vfWorldOpt{Label: label, Trace: tr, A: vfEpCfg{InitTSN: 19, Tag: 0xA6, IL: il}, B: vfEpCfg{InitTSN: 47, Tag: 0xB6, IL: il, Server: true}})
+					if !w.vfConnect() {
+						w.finish(true)
+						return
+					}
+					w.open(0, 1, 51)
+					slow := func(rounds int) {
+						for r := 0; r < rounds; r++ {
+							w.sleep(400 * time.Millisecond)
+							for _, p := range w.pending(-1) {
+								w.deliver(p.id)
+							}
+							w.accept(1)
+							w.drainReads()
+						}
+					}
+					for i := 0; i < 3; i++ {
+						w.write(0, 1, 200+i, 51)
+						slow(4)
+					}
+					// outage: everything is lost for four expiries of T3-rtx
+					w.write(0, 1, 300, 51)
+					for t0 := time.Now(); time.Since(t0) < 100*time.Second; {
+						for _, p := range w.pending(-1) {
+							w.drop(p.id)
+						}
+						if w.ep[0].a.stats.getNumT3Timeouts() >= 4 {
+							break
+						}
+						w.tick(30 * time.Second)
+					}
+					slow(8)
+					w.heal(120 * time.Second)
+					w.snapAll = true
+					w.quiesce()
+					w.tr.emit(map[string]any{"ev": "expect", "drained": true, "t": w.now()})
+					w.finish(true)
+				})
+			}
 			// 5. read deadlines swept across the arrival instant
 			if next() {
 				label := fmt.Sprintf("api-readdeadline-il%v#%d", il, k)
